@@ -123,6 +123,8 @@ INSTANCE_ALIAS = {
 }
 SPEC_M.append(("ledger.protocol_v1", "HSM1ProtocolLedger", [
     "_error", "_translate_sign_error", "_get_pubkey", "_sign"]))
+SPEC_M.append(("ledger.protocol_v1", "HSM1ProtocolLedger", ["__internal_handle_request"]))
+SPEC_M.append(("sgx.hsm2dongle", "HSM2DongleSGX", ["echo", "unlock", "new_pin", "get_retries", "onboard"]))
 # attributes of self that hold another translated object: (class, attribute) -> (module, class)
 ATTR_CLASS = {("HSM2SignerHeartbeat", "dongle"): ("ledger.hsm2dongle", "HSM2Dongle"),
               ("HSM2UIHeartbeat", "dongle"): ("ledger.hsm2dongle", "HSM2Dongle"),
